@@ -43,7 +43,10 @@ namespace hv
     X("TSDL", TSD<Str, TSL<TS<Int>, 2>>)                      \
     X("TSBL", BL)                                             \
     X("TSBB", BB)                                             \
-    X("TSDW", TSD<Int, TSW<Int, 3, 2>>)
+    X("TSDW", TSD<Int, TSW<Int, 3, 2>>)                       \
+    X("TSDBS", TSD<Int, BS>)                                  \
+    X("TSLB", TSL<B2, 2>)                                     \
+    X("TSBW", BW)
 
     namespace
     {
